@@ -75,6 +75,9 @@ func defsC05(maxSize int) []c05Def {
 						}
 						opts = append(opts, o)
 					}
+					// an optional-value option and a slice with room for one more value: an abbreviation typed right behind
+					// them is an option, not their value
+					opts = append(opts, ph.OptDef{Name: "zopt", Kind: ph.StrOpt, DefS: "ZD"}, ph.OptDef{Name: "zlist", Kind: ph.StrS, Min: 1, Max: 2})
 					for mode := 0; mode < 3; mode++ {
 						for _, ro := range []bool{false, true} {
 							d := &ph.Def{Mode: mode, RequireOrder: ro, Root: ph.CmdDef{Name: "prog", Opts: opts,
@@ -176,7 +179,7 @@ func init() {
 						if isStr {
 							tok += "=val"
 						}
-						for ctx := 0; ctx < 6; ctx++ {
+						for ctx := 0; ctx < 9; ctx++ {
 							var argv []string
 							switch ctx {
 							case 0:
@@ -189,8 +192,17 @@ func init() {
 								argv = []string{tok, "w", tok}
 							case 5:
 								argv = []string{"w", tok}
+							case 6: // right behind an optional-value option given without a value
+								argv = []string{"--zopt", tok}
+							case 7: // right behind a slice option that could still take a value
+								argv = []string{"--zlist", "x", tok}
+							case 8: // Bundling: behind a letter that no declared name starts with, in one token
+								if dash != "-" || cd.def.Mode != 1 || isStr {
+									continue
+								}
+								argv = []string{"-q" + text}
 							default:
-								first := "--" + cd.def.Root.Opts[len(cd.def.Root.Opts)-1].Name
+								first := "--" + cd.def.Root.Opts[len(cd.def.Root.Opts)-3].Name
 								if isStr {
 									first += "=first"
 								}
